@@ -57,7 +57,7 @@ POINTS = {
 REQUIRED_POINTS = list(POINTS)
 REQUIRED_CLAUSES = ["tuple.ranges", "tuple.recombines", "dms2deg.inverts",
                     "str.parses", "str.no-60", "str.sign-once-on-leading",
-                    "str.reads-back"]
+                    "str.reads-back", "independent-of-object-tolerance"]
 
 
 def shards(tier, seed):
@@ -225,6 +225,29 @@ def case_value(mon, v, ndecs, raw_input=None):
                     mon.cls("printing-carried", (v, ra, fancy, n_dec),
                             [v, n_dec, s])
     mon.check("operand-unchanged", a() == v, {"value": v, "after": a()})
+    # the comparison tolerance of an Angle (set_tolerance, inherited by
+    # copies) and earlier views of the same object do not take part in
+    # decomposition or printing
+    try:
+        ref = [(a.dms_str(f, n), a.ra_str(f, n)) for n in ndecs
+               for f in (True, False)] + [a.dms_tuple(), a.ra_tuple()]
+        for tol in (0.0, 1e-3, 1e-14):
+            b = Angle(v)
+            b.set_tolerance(tol)
+            c = Angle(b)
+            for obj in (b, c):
+                got = [(obj.dms_str(f, n), obj.ra_str(f, n)) for n in ndecs
+                       for f in (True, False)] + [obj.dms_tuple(),
+                                                  obj.ra_tuple()]
+                mon.evals += 1
+                mon.check("independent-of-object-tolerance", got == ref,
+                          lambda: {"value": v, "tolerance": tol,
+                                   "n_dec": list(ndecs),
+                                   "with_tolerance": repr(got)[:300],
+                                   "default": repr(ref)[:300]})
+    except Exception as e:
+        mon.dev("independent-of-object-tolerance",
+                {"value": v, "raised": repr(e)})
 
 
 def gen_value(rng):
